@@ -1,3 +1,5 @@
+import Ntrip.Guards.FramingConsts
+import Ntrip.Guards.Framing
 import Ntrip.Properties.C10
 import Ntrip.Generated.Consts
 import Ntrip.Generated.Layouts
@@ -21,5 +23,11 @@ theorem tie_handover :
 
 /-- Tie T1 (guards): the conditions of rtcmfilter: which messages `writeRTCMMessages` skips, which consumers `HandleMessages` starts. -/
 theorem tie_guards_filter : type_of% Ntrip.Guards.filter := Ntrip.Guards.filter
+
+/-- Tie T1: the guards and loop headers of the framing code this property builds on. -/
+theorem tie_framing : type_of% Ntrip.Guards.framing := Ntrip.Guards.framing
+
+/-- Tie T1: the literals of the framing model are the constants of the source. -/
+theorem tie_framing_consts : type_of% Ntrip.Guards.framing_consts := Ntrip.Guards.framing_consts
 
 end Ntrip.C10
